@@ -22,6 +22,16 @@ from .terms import ABSENT, ERR, FALSE, TRUE, App, BoolOp, Cmp, Const, Fin, Opaqu
 MAX_DEPTH = 14
 
 
+class SplitOn(Exception):
+    """An expression selects between values of different shape (an object / None, tuples of
+    different length): in path-splitting mode the enclosing statement is interpreted once under
+    the condition and once under its negation."""
+
+    def __init__(self, cond):
+        Exception.__init__(self, "split")
+        self.cond = cond
+
+
 class Dead(Exception):
     """Current path is infeasible or ended in a raise."""
 
@@ -199,7 +209,7 @@ class ListObj(object):
         o = ListObj(self.items)
         o.hash_ordered = self.hash_ordered
         o.kind = self.kind
-        for a in ("one_shot", "havoc", "havoc_items"):
+        for a in ("one_shot", "havoc", "havoc_items", "prefix_closed", "iterator"):
             if hasattr(self, a):
                 setattr(o, a, getattr(self, a))
         return o
@@ -350,6 +360,11 @@ class Interp(object):
 
     def event(self, kind, node, module, st, **data):
         ev = Event(kind, node, module, self.current_func, st.pc, **data)
+        if getattr(self, "event_dom", False):
+            # the rows that reach this point are also narrowed by assumptions that left no path
+            # condition (a hazard that was assumed away): keep the domains and joint constraints
+            ev.data["dom"] = dict(st.dom)
+            ev.data["constraints"] = list(st.constraints)
         self.events.append(ev)
         return ev
 
@@ -501,6 +516,8 @@ class Interp(object):
         if isinstance(v, Ref):
             o = st.heap[v.id]
             if o.kind in ("list", "set"):
+                if getattr(o, "iterator", False):
+                    return TRUE  # an iterator / generator object is true whatever it would yield
                 return mk_or([g for g, _ in o.items])
             if o.kind == "map":
                 return mk_or([p for p, _ in o.entries.values()])
